@@ -43,6 +43,11 @@ THEOREMS = [
     "IrVerif.Kernel.C01_graph_calls_use_seq",
     "IrVerif.Kernel.C01_attr_frame",
     "IrVerif.Kernel.C01_sort_step",
+    "IrVerif.Kernel.C01_sort_exact",
+    "IrVerif.Kernel.C01_sort_accepted_iff",
+    "IrVerif.Kernel.C01_view_frame",
+    "IrVerif.Kernel.C01_views_erasable",
+    "IrVerif.Kernel.C01_history_views",
 ]
 ASSUMPTIONS = [
     "alphabet: Value(...), const_value= (also a tensor whose name cannot be assigned), Node(...) (inputs, num_outputs / "
@@ -93,6 +98,7 @@ def run(ctx: Ctx) -> None:
     ctx.exhaustive_scopes.append(K.run_after_reject(ctx, PROP, depth=ctx.pick(3, 4)))
     ctx.notes.append("directed: " + K.run_sort_scenarios(ctx, PROP))
     ctx.notes.append("directed: " + K.run_position_scenarios(ctx, PROP))
+    ctx.notes.append("directed: " + K.run_view_scenarios(ctx, PROP))
     K.run_random(ctx, PROP, ctx.pick(2000, 40000), ctx.pick(40, 60))
     K.check_alphabet(ctx, PROP)
 
